@@ -624,3 +624,243 @@ def e13b(ctx: Ctx):
         from .core import IdiomNotFound
 
         raise IdiomNotFound(f"only {n} collections of numbered names found (the numeric and the string temporaries are no longer kept as sets of f-string names)")
+
+
+# ---------------------------------------------------------------------------
+# P17 REPLACER-RETURNS
+
+
+def _definitely_returns_value(stmts: List[ast.stmt]) -> bool:
+    """Every path through the statement list ends in `return <value>` or `raise`."""
+    for st in stmts:
+        if isinstance(st, ast.Return):
+            return st.value is not None and not (isinstance(st.value, ast.Constant) and st.value.value is None)
+        if isinstance(st, ast.Raise):
+            return True
+        if isinstance(st, ast.If) and st.orelse and _definitely_returns_value(st.body) and _definitely_returns_value(st.orelse):
+            return True
+        if isinstance(st, ast.Try) and (_definitely_returns_value(st.finalbody) or (_definitely_returns_value(st.body) and all(_definitely_returns_value(h.body) for h in st.handlers))):
+            return True
+        if isinstance(st, ast.With) and _definitely_returns_value(st.body):
+            return True
+    return False
+
+
+def _valueless_returns(fn: ast.FunctionDef) -> List[ast.Return]:
+    out = []
+    stack: List[ast.AST] = list(fn.body)
+    while stack:
+        n = stack.pop()
+        if isinstance(n, (ast.FunctionDef, ast.AsyncFunctionDef, ast.Lambda, ast.ClassDef)):
+            continue
+        if isinstance(n, ast.Return) and (n.value is None or (isinstance(n.value, ast.Constant) and n.value.value is None)):
+            out.append(n)
+        stack.extend(ast.iter_child_nodes(n))
+    return out
+
+
+@rule("P17", "REPLACER-RETURNS: a visitor method whose result the traversal stores back in place of the visited statement (`statements[i] = visitor.visit_x(statement)`) returns a statement on every path, in every visitor that defines it", ["C15", "C07"], floor=4, soft=True, default_props=["C15"])
+def p17(ctx: Ctx):
+    py = pyfacts(ctx)
+    el = py.mod("coco/b09/elements.py")
+    replacers: Dict[str, int] = {}
+    for n in ast.walk(el.tree):
+        if isinstance(n, ast.Assign) and isinstance(n.value, ast.Call) and isinstance(n.value.func, ast.Attribute) and isinstance(n.value.func.value, ast.Name) and n.value.func.value.id == "visitor" and n.value.func.attr.startswith("visit_") and any(isinstance(t, (ast.Subscript, ast.Attribute)) for t in n.targets):
+            replacers.setdefault(n.value.func.attr, n.lineno)
+    if len(replacers) < 2:
+        from .core import IdiomNotFound
+
+        raise IdiomNotFound(f"only {len(replacers)} `x[i] = visitor.visit_..(..)` sites found in elements.py (the traversal no longer stores hook results by name)")
+    n_impl = 0
+    for rel in ("coco/b09/visitors.py", "coco/b09/elements.py", "coco/b09/compiler.py", "coco/b09/error_handler.py"):
+        try:
+            mod = py.mod(rel)
+        except Exception:
+            continue
+        for cls in [c for c in mod.tree.body if isinstance(c, ast.ClassDef)]:
+            for m in [x for x in cls.body if isinstance(x, ast.FunctionDef) and x.name in replacers]:
+                n_impl += 1
+                bare = _valueless_returns(m)
+                total = _definitely_returns_value(m.body)
+                ok = total and not bare
+                ctx.ob(
+                    f"{cls.name}.{m.name}",
+                    ok,
+                    "" if ok else f"`{cls.name}.{m.name}` can end without returning a statement ({'`return` without a value at line ' + str(bare[0].lineno) if bare else 'a path falls off the end'}); the traversal stores the result in the statement list (elements.py:{replacers[m.name]}), so the statement is replaced by None and the next pass fails with AttributeError",
+                    file=rel,
+                    line=bare[0].lineno if bare else m.lineno,
+                    witness="" if ok else '10 READ A$,B$ / 20 DATA FOO,',
+                )
+    ctx.need(n_impl >= 4, "implementations", f"only {n_impl} implementations of {sorted(replacers)} found")
+
+
+# ---------------------------------------------------------------------------
+# P18 JOIN-STRINGS
+
+
+def _numeric_properties(tree: ast.AST) -> Set[str]:
+    """Property / attribute names that are declared numeric everywhere they are declared (`-> int`, `Union[int, None]`)."""
+    num: Set[str] = set()
+    other: Set[str] = set()
+    for cls in [c for c in ast.walk(tree) if isinstance(c, ast.ClassDef)]:
+        for m in cls.body:
+            if isinstance(m, ast.FunctionDef) and any(isinstance(d, ast.Name) and d.id == "property" for d in m.decorator_list):
+                ann = unparse(m.returns) if m.returns is not None else ""
+                ids = set(re.findall(r"[A-Za-z_]+", ann))
+                if ids and ids <= {"int", "float", "Union", "Optional", "None"} and ids & {"int", "float"}:
+                    num.add(m.name)
+                else:
+                    other.add(m.name)
+    return num - other
+
+
+def _join_sites(tree: ast.AST, numeric: Set[str]):
+    """(call, offending element expression or None) for every `<text>.join(...)` whose elements are spelled at the call."""
+    for c in ast.walk(tree):
+        if not (isinstance(c, ast.Call) and isinstance(c.func, ast.Attribute) and c.func.attr == "join" and len(c.args) == 1):
+            continue
+        if not (isinstance(c.func.value, ast.Constant) and isinstance(c.func.value.value, str)) and not isinstance(c.func.value, (ast.JoinedStr, ast.Name, ast.Attribute)):
+            continue
+        a = c.args[0]
+        elts: List[ast.AST] = []
+        if isinstance(a, (ast.GeneratorExp, ast.ListComp, ast.SetComp)):
+            elts = [a.elt]
+        elif isinstance(a, (ast.List, ast.Tuple)):
+            elts = [e.value if isinstance(e, ast.Starred) else e for e in a.elts]
+        bad = None
+        for e in elts:
+            while isinstance(e, ast.IfExp):
+                e = e.body
+            if isinstance(e, ast.Attribute) and e.attr in numeric:
+                bad = e
+            elif isinstance(e, ast.Constant) and isinstance(e.value, (int, float)) and not isinstance(e.value, bool):
+                bad = e
+            elif isinstance(e, ast.Call) and isinstance(e.func, ast.Name) and e.func.id in ("len", "int", "float", "ord", "sum", "abs"):
+                bad = e
+        yield c, bad
+
+
+@rule("P18", "JOIN-STRINGS: what is handed to `str.join` is text: an element that is a numeric attribute (`.linenum`, `.num` - declared `int`), a number or `len(..)` raises TypeError the first time the list is not empty", ["C15"], floor=6)
+def p18(ctx: Ctx):
+    py = pyfacts(ctx)
+    numeric = _numeric_properties(py.mod("coco/b09/elements.py").tree)
+    ctx.need(len(numeric) >= 2, "numeric properties", f"only {sorted(numeric)} found in elements.py (expected the line-number attributes)")
+    probe = ast.parse("msg = ', '.join(s.linenum for s in stmts)")
+    twin = ast.parse("msg = ', '.join(str(s.linenum) for s in stmts)")
+    ctx.need(any(b is not None for _, b in _join_sites(probe, numeric | {"linenum"})) and all(b is None for _, b in _join_sites(twin, numeric | {"linenum"})), "self-test", "the built-in positive example / its twin are no longer told apart")
+    n = 0
+    for rel in ("coco/b09/compiler.py", "coco/b09/visitors.py", "coco/b09/elements.py", "coco/b09/prog.py", "coco/b09/error_handler.py", "coco/b09/procbank.py", "coco/b09/parser.py", "coco/decb_to_b09.py"):
+        try:
+            tree = ast.parse(ctx.path(rel).read_text())
+        except Exception:
+            continue
+        sites = list(_join_sites(tree, numeric))
+        n += len(sites)
+        bad = [(c, b) for c, b in sites if b is not None]
+        ctx.ob(
+            rel,
+            not bad,
+            "" if not bad else f"`{unparse(bad[0][0])[:80]}` joins `{unparse(bad[0][1])}`, which is a number, not text: the statement raises TypeError (an internal exception instead of the conversion or the documented refusal it was meant to produce)",
+            file=rel,
+            line=bad[0][0].lineno if bad else 1,
+            witness="" if not bad else "10 ON ERR GOTO 100 / 20 ON ERR GOTO 200",
+        )
+    ctx.units["P18_join_sites"] = n
+    ctx.need(n >= 10, "join sites", f"only {n} `.join(` calls found")
+
+
+# ---------------------------------------------------------------------------
+# L14 PARAM-READ
+
+# parameters that are declared for call compatibility only (one named symbol each, with the reason)
+_UNREAD_BY_DESIGN = {
+    ("ecb_hpaint", "c0"): "HPAINT's border colour: OS-9's FILL floods the area of the start pixel's colour and has no border operand; the parameter keeps the emitted call uniform",
+}
+
+
+@rule("L14", "PARAM-READ: every parameter a library procedure declares is read (or assigned, for a result) somewhere in its body - an operand the tool passes in a position the procedure never looks at does not reach the device", ["C04", "C14", "C20"], floor=50, default_props=["C04"])
+def l14(ctx: Ctx):
+    from .b09lib import LIB_REL, b09lib
+
+    L = b09lib(ctx)
+    for name, p in sorted(L.procs.items()):
+        body = "\n".join(s_.text for s_ in L.all_stmts(p)).lower()
+        body = re.sub(r'"[^"]*"', '""', body)
+        unread = [pn for pn, _, _ in p.params if not re.search(rf"(?<![\w$.]){re.escape(pn)}(?![\w$])", body)]
+        stale = [pn for pn in unread if (name, pn) in _UNREAD_BY_DESIGN]
+        bad = [pn for pn in unread if (name, pn) not in _UNREAD_BY_DESIGN]
+        for pn in stale:
+            ctx.info(f"{name}.{pn}", f"declared but not read, by design: {_UNREAD_BY_DESIGN[(name, pn)]}", file=LIB_REL, line=p.line)
+        # which other parameter is tested twice is the usual way this happens (a copied IF block): name it
+        ctx.ob(
+            name,
+            not bad,
+            "" if not bad else f"procedure {name} never reads its parameter `{bad[0]}` (position {[x[0] for x in p.params].index(bad[0]) + 1}): the operand the tool passes there has no effect" + ("; " + ", ".join(f"`{q}` is tested {n_} times" for q, n_ in sorted({q: len(re.findall(rf'(?im)^\s*if\b[^\n]*(?<![\w$.]){re.escape(q)}(?![\w$])', chr(10).join(s_.text for s_ in L.all_stmts(p)).lower())) for q, _, _ in p.params}.items()) if n_ > 1) if bad else ""),
+            file=LIB_REL,
+            line=p.line,
+            props=["C20", "C04"] if name in ("ecb_instr", "ecb_string", "ecb_val", "ecb_str", "ecb_hex", "ecb_int") else None,
+        )
+
+
+# ---------------------------------------------------------------------------
+# G20 LITERAL-STOPS-AT-KEYWORD
+
+
+def _keywords_after_expression(p) -> Set[str]:
+    """Keywords that can stand directly after an expression / a statement (the same walk as G10)."""
+    from .rules_more3 import _can_end_with_name, _first_keywords
+
+    blank = p.blank_only()
+    out: Set[str] = set()
+    for rname in sorted(p.rules):
+        e = p.rules[rname]
+        if (e.name or rname) != rname:
+            continue
+        stack = [e]
+        vis = set()
+        while stack:
+            x = stack.pop()
+            if id(x) in vis:
+                continue
+            vis.add(id(x))
+            for m in getattr(x, "members", ()) or ():
+                if not m.name:
+                    stack.append(m)
+            if p.kind(x) != "seq":
+                continue
+            ms = [m for m in x.members if not blank[id(m)] and p.kind(m) != "lookahead"]
+            for a, b in zip(ms, ms[1:]):
+                if _can_end_with_name(p, a):
+                    out |= _first_keywords(p, b)
+    return out
+
+
+@rule("G20", "LITERAL-STOPS-AT-KEYWORD: the numeric terminal never takes the first letters of a keyword that follows the number (the `E` of ELSE read as an exponent), with or without blanks in between - asked of the terminal's own pattern, for every spelling of a number", ["C08", "C02"], floor=6, default_props=["C08"])
+def g20(ctx: Ctx):
+    p = peg(ctx)
+    nl = p.rules.get("num_literal")
+    ctx.need(nl is not None and p.kind(nl) == "regex", "num_literal", "terminal not found")
+    kws = sorted(k for k in _keywords_after_expression(p) if re.fullmatch(r"[A-Z]+\$?", k))
+    ctx.need(len(kws) >= 5, "keywords", f"only {kws} found after expressions")
+    spellings = ("1", "12", "2.5", ".5", "1.", "0")
+    for kw in kws:
+        bad = None
+        for s_ in spellings:
+            for gap in ("", " ", "  "):
+                text = s_ + gap + kw + " 1"
+                m = nl.re.match(text)
+                if m is None:
+                    continue
+                if m.end() > len(s_) + len(gap):
+                    bad = (text, m.group(0))
+                    break
+            if bad:
+                break
+        ctx.ob(
+            f"num_literal:{kw}",
+            bad is None,
+            "" if bad is None else f"in `{bad[0]}` the numeric terminal matches `{bad[1]}`: it takes letters of the keyword {kw} that follows the number, so the statement is refused (or read differently) in this layout while the same statement without the blank / with an integer is accepted",
+            file=GRAMMAR_REL,
+            line=p.line("num_literal"),
+            witness="" if bad is None else f"10 IF A THEN B={bad[0].split(kw)[0]}{kw} C=1",
+        )
